@@ -219,6 +219,12 @@ class C04(Prop):
                     def fix(rng, b, tc=tc, df=df):
                         if tc == 31 and rng.chance(7, 8): make_opstatus_ok(rng, b, rng.below(2))
                     ops += field_sweep(rng, df, first - 1, w, reps if w <= 5 else 1, tc=tc, fixups=fix, limit=64 if tier == "quick" else 1024)
+        # the same frames through `Frame::from_reader` over a reader that does not start at the frame (a Beast header, the previous frame of a
+        # capture in front of it): the fields are those of the frame's own bits wherever the frame stands (seed C04_f: the id re-read seeked to
+        # an absolute offset, so header fields came from the bytes in front)
+        fops = [o for o in ops if o.startswith("F ")]
+        for k, o in enumerate(fops[::5 if tier == "quick" else 2][:1500 if tier == "quick" else 20000]):
+            ops.append("R %s %s %d" % (o.split()[1], rng.choice(["-", "-", "1", "3"]), (3, 9, 14, 1, 27)[k % 5]))
         n = (1 << 16) if tier == "quick" else (1 << 24)
         if tier == "quick":
             for i in range(n):
@@ -622,6 +628,7 @@ class C13(TrackerProp):
         for k in range(40 if tier == "quick" else 400): ops += gentrack.alias_history(rng)
         for k in range(30 if tier == "quick" else 300): ops += gentrack.wrap_history(rng)
         for k in range(30 if tier == "quick" else 300): ops += gentrack.outbound_history(rng)
+        for k in range(30 if tier == "quick" else 300): ops += gentrack.moving_receiver_history(rng)
         return ops
 
 class C14(TrackerProp):
@@ -687,6 +694,27 @@ class C20(Prop):
         for i, (a, b) in enumerate(zip(impl, out)):
             if a != b: failing.append((ops[i], "std build and alloc-only build differ: %s | %s" % (a[:200], b[:200]), a, b, i))
         ctx.extra["alloc_vs_std_ops"] = len(ops)
+        # the std build has a clock, the alloc-only build has none: time passing between frames (the std harness ages every timestamp through
+        # the cfg-guarded hook; nothing is pruned) must not make the two trackers differ in anything but the timestamps themselves
+        # (seed C20_f: a std-only "stored frame older than 10 s is dropped before pairing")
+        import vlib
+        trng = vlib.Rng(int(os.environ.get("VERIF_SEED", "1")) * 7919 + 20)
+        tstd = []
+        for h in range(12 if len(ops) < 200000 else 60):
+            for o in gentrack.history(trng, 60, n_planes=1 + trng.below(3), with_time=True):
+                if not o.startswith("T prune"): tstd.append(o)
+        # by construction: a published aircraft, a pause of 11 s / 1 min / 1 h, then the next report of the pair
+        for pause in (11000, 60000, 3600000, 9000, 10001):
+            f = gentrack.Flight(trng, trng.bits(24), (39.0, -77.0), plain=True)
+            tstd += ["T reset 39.0 -77.0 500", gentrack.hexop("T act", f.position(trng, odd=0)), gentrack.hexop("T act", f.position(trng, odd=1)), "T age %d" % pause]
+            f.step(trng); tstd += [gentrack.hexop("T act", f.position(trng, odd=0)), "T dump"]
+        talloc = [o for o in tstd if not o.startswith("T age")]
+        ok2, _, stdb = vcheck.build_harness()
+        so = run_ops(stdb, tstd); ao = run_ops(alloc, talloc)
+        so = [l for o, l in zip(tstd, so) if not o.startswith("T age")]
+        for i, (a, b) in enumerate(zip(so, ao)):
+            if a != b: failing.append((talloc[i], "std build (with time passing between the frames) and alloc-only build differ: %s | %s" % (a[:200], b[:200]), a, b, i))
+        ctx.extra["alloc_vs_std_ops_with_pauses"] = len(talloc)
         sops = []
         for o in ops:
             if o.startswith("F "): sops.append("S " + o[2:])
